@@ -94,7 +94,7 @@ def run(ctx):
     for line in fails:
         cls = line.split("]")[0].lstrip("[")
         ctx.violation("oracle", f"providers disagree: {cls}", {"class": cls, "example": line[:1200],
-                                                               "replay": f"cd /verif/harness && target/debug/vharness c14 --seed {ctx.seed} --tier {ctx.tier}"},
+                                                               "replay": f"cd /verif/harness && target/debug/vharness c14 --seed {ctx.seed * 100 + int(ctx.pid[1:])} --tier {ctx.tier}"},
                       key=key_of(cls))
     if rc2 != 0 or mixed_fail:
         mf = os.path.join(ctx.work, "mixed", "hist.failures")
